@@ -58,6 +58,8 @@ struct jls_raw_s {
     union jls_version_u version;
 };
 
+#define PAYLOAD_SINGLE_WRITE_MAX (256U)
+
 static inline void invalidate_current_chunk(struct jls_raw_s * self) {
     self->hdr.tag = JLS_TAG_INVALID;
 }
@@ -282,8 +284,18 @@ int32_t jls_raw_wr_payload(struct jls_raw_s * self, uint32_t payload_length, con
     footer[pad + 2] = (crc32 >> 16) & 0xff;
     footer[pad + 3] = (crc32 >> 24) & 0xff;
 
-    RLE(jls_bk_fwrite(&self->backend, payload, hdr->payload_length));
-    RLE(jls_bk_fwrite(&self->backend, footer, pad + CRC_SIZE));
+    if (hdr->payload_length <= PAYLOAD_SINGLE_WRITE_MAX) {
+        // Small payloads, such as the track head tables that are rewritten in place,
+        // go out with their CRC in one write: a writer stopped between two writes
+        // never leaves the new payload with the old CRC.
+        uint8_t buf[PAYLOAD_SINGLE_WRITE_MAX + CRC_SIZE + HEADER_ALIGN];
+        memcpy(buf, payload, hdr->payload_length);
+        memcpy(buf + hdr->payload_length, footer, pad + CRC_SIZE);
+        RLE(jls_bk_fwrite(&self->backend, buf, hdr->payload_length + pad + CRC_SIZE));
+    } else {
+        RLE(jls_bk_fwrite(&self->backend, payload, hdr->payload_length));
+        RLE(jls_bk_fwrite(&self->backend, footer, pad + CRC_SIZE));
+    }
     if (self->backend.fpos >= self->backend.fend) {
         self->last_payload_length = payload_length;
     }
